@@ -123,13 +123,15 @@ impl Serialize for Mpi {
 
 impl From<BigUint> for Mpi {
     fn from(other: BigUint) -> Self {
-        Mpi(other.to_bytes_be().into())
+        // (zero is the single octet `0`)
+        Mpi::from_slice(&other.to_bytes_be())
     }
 }
 
 impl From<&BigUint> for Mpi {
     fn from(other: &BigUint) -> Self {
-        Mpi(other.to_bytes_be().into())
+        // (zero is the single octet `0`)
+        Mpi::from_slice(&other.to_bytes_be())
     }
 }
 
